@@ -1,14 +1,15 @@
 /-
   Model of the command line: clap's derive parser for `jawk::Cli` (`src/lib.rs`) and the flattened
   `OutputOptions` / `JsonOutputOptions` / `TextOutputOptions` (`src/output_style.rs`), for argument
-  vectors in the canonical spelling
+  vectors in the spellings
 
-      --long-name=value      --long-name      positional
+      --long-name=value   --long-name value   --long-name      positional
+      -c value   -cvalue   -c=value   -u   -uc value  (a cluster: flags first, then at most one valued option)
 
-  (long names and their visible aliases; one token per option occurrence, except for a bare optional-valued option
-  followed by a value: `lexAll`).  Everything else — short options,
-  `--name value` in two tokens, `--`, `--additional-help`, `--help`, `--version` — is outside this model
-  (`Tok.other`, the parse answers `none`, and the correspondence run does not generate it).
+  (long names and their visible aliases, one-letter names; `lexAll` turns the arguments into tokens — an option written
+  without an attached value takes the NEXT argument as its value when that argument does not look like an option).
+  Everything else — `--`, `--additional-help`/`-a`, `--help`/`-h`, `--version`/`-V`, a lone `-` as positional — is
+  outside this model (`Tok.other`, the parse answers `none`, and the correspondence run does not generate it).
 
   clap processes the tokens from left to right: a flag or a single-valued option may occur once
   (`ArgumentConflict`/"cannot be used multiple times" otherwise), a multi-valued option appends, positionals
@@ -70,6 +71,21 @@ def Opt.names : Opt → List String
   | .falseKw => ["false-keyword"]
   | .missingKw => ["missing-value-keyword"]
 
+/-- the one-letter name (`#[arg(short)]`: the first letter of the field; `short = 'k'`, `short = 'e'`) -/
+def Opt.short : Opt → Option Char
+  | .select => some 'c'
+  | .filter => some 'f'
+  | .split => some 'b'
+  | .group => some 'g'
+  | .sort => some 's'
+  | .skip => some 'k'
+  | .take => some 't'
+  | .unique => some 'u'
+  | .set => some 'e'
+  | .outStyle => some 'o'
+  | .rowSep => some 'r'
+  | _ => none
+
 def Opt.kind : Opt → Kind
   | .select | .sort | .set | .escape => .multi
   | .unique | .ooa | .utf8 | .headers => .flag
@@ -102,6 +118,34 @@ def lex (s : Str) : Tok :=
       | _ :: v => .opt o (some v)
   | '-' :: _ => .other
   | _ => .file s
+
+def findShort (c : Char) : Option Opt :=
+  Opt.all.find? (fun o => o.short = some c)
+
+/-- may the argument be taken as the value of the option before it?  Anything that does not start with `-`, and the
+lone `-` (clap parses every other `-…` argument as an option, so the option before it is left without a value) -/
+def isValue (v : Str) : Bool := v.head? ≠ some '-' || v = ['-']
+
+/-- the tokens of a cluster of one-letter options (the characters after the single `-`): flags one after the other,
+then at most one option that takes a value — the rest of the argument (minus one leading `=`) when there is a rest,
+else the next argument `next` when that may be a value.  The flag says whether `next` was used. -/
+def lexShort : Str → Option Str → List Tok × Bool
+  | [], _ => ([], false)
+  | c :: more, next =>
+    match findShort c with
+    | none => ([.other], false)
+    | some o =>
+      if o.kind = .flag then
+        let r := lexShort more next
+        (.opt o none :: r.1, r.2)
+      else
+        match more with
+        | '=' :: v => ([.opt o (some v)], false)
+        | [] =>
+          match next with
+          | some v => if isValue v then ([.opt o (some v)], true) else ([.opt o none], false)
+          | none => ([.opt o none], false)
+        | v => ([.opt o (some v)], false)
 
 /-- what clap has collected: per option the values of its occurrences, in order; the positionals -/
 structure Raw where
@@ -207,18 +251,39 @@ def assemble (r : Raw) : Parsed :=
     files := r.files
     cacheSize := ((r.single .cache).bind parseUnsigned).getD 0 }
 
-/-- The tokens of a whole command line.  One token per argument, except that clap hands a BARE optional-valued option
-(`--group-by`, `--combine`, `--merge` without `=value`) the NEXT argument as its value when that argument does not
-look like an option: `--merge file.json` groups by the text `file.json` and reads standard input. -/
-def lexAll : List Str → List Tok
-  | [] => []
-  | [s] => [lex s]
-  | s :: v :: rest =>
-    match lex s with
-    | .opt o none =>
-      if o.kind = .optValue ∧ v.head? ≠ some '-' then .opt o (some v) :: lexAll rest
-      else .opt o none :: lexAll (v :: rest)
-    | t => t :: lexAll (v :: rest)
+/-- is the argument a cluster of one-letter options (`-x…`, not `--…`, not the lone `-`) -/
+def shortBody (s : Str) : Option Str :=
+  match s with
+  | '-' :: '-' :: _ => none
+  | '-' :: c :: more => some (c :: more)
+  | _ => none
+
+/-- The tokens of a whole command line, left to right.  One token per argument, except that
+* an option written WITHOUT an attached value (`--choose`, `-c`, and also the optional-valued `--group-by` / `--combine` /
+  `--merge` / `-g`) is handed the NEXT argument as its value when that argument does not look like an option
+  (`isValue`): `--merge file.json` groups by the text `file.json` and reads standard input;
+* a cluster of one-letter options gives one token per letter (`lexShort`). -/
+def lexAllF : Nat → List Str → List Tok
+  | 0, _ => []
+  | _ + 1, [] => []
+  | n + 1, s :: rest =>
+    match shortBody s with
+    | some body =>
+      let r := lexShort body rest.head?
+      r.1 ++ lexAllF n (if r.2 then rest.drop 1 else rest)
+    | none =>
+      match lex s with
+      | .opt o none =>
+        match rest.head? with
+        | some v =>
+          if o.kind ≠ .flag ∧ isValue v then .opt o (some v) :: lexAllF n (rest.drop 1)
+          else .opt o none :: lexAllF n rest
+        | none => .opt o none :: lexAllF n rest
+      | t => t :: lexAllF n rest
+
+/-- (the recursion runs on a step count that the length of the argument list bounds: `Lemmas/ArgsOrder.lexAll_cons`
+is the equation without it) -/
+def lexAll (l : List Str) : List Tok := lexAllF l.length l
 
 /-- `Cli::try_parse_from` on the arguments after the program name -/
 def parseArgs (argv : List Str) : Option Parsed :=
